@@ -189,7 +189,9 @@ PROPS["C01"] = dict(
               "up to 4 levels over {a,b,c,empty,+,#}, one filter at a time; (2) sets of 2-12 filters (tree and SubscriptionsState.ByPattern) x all "
               "339 topics, plus deep/UTF-8 topics — the answer for a set must be the union of the single answers; (3) subscribe/unsubscribe/"
               "re-subscribe/DeleteSession histories on a real distributed.State versus a state built directly from the final active set. "
-              "(4) end to end through a running in-process broker (e2e_test.go, when present in the run plan)."),
+              "(4) end to end through a running in-process broker (e2e_test.go, when present in the run plan). (5) digest collisions: pairs of topic "
+              "names that collide under the usual 32-bit hash functions (fnv32/32a, crc32, adler32, folded fnv64a; with and without the mount-point "
+              "prefix) are published alternately between subscription changes: each publish must reach the subscriber of its own topic only."),
         note="Trusted: Go toolchain, rapid, the 15-line reference matcher (unit-tested on the MQTT 3.1.1 section 4.7 examples). Filters are valid MQTT filters; '$'-topics are not special-cased; topics contain no wildcard characters.",
         technique="exhaustive small-scope enumeration + rapid generated filter sets and subscription histories against a reference MQTT matcher",
     ),
@@ -204,6 +206,7 @@ PROPS["C01"] = dict(
         dict(name="sets", pkg="c01", run="TestSets", checks=dict(quick=24000, thorough=300000), shards=dict(quick=8, thorough=16), timeout=dict(quick=300, thorough=1800)),
         dict(name="histories", pkg="c01", run="TestHistories", checks=dict(quick=60000, thorough=400000), shards=dict(quick=4, thorough=16), timeout=dict(quick=300, thorough=1800)),
         dict(name="e2e", pkg="c01", run="TestE2E", checks=dict(quick=640, thorough=6000), shards=16, timeout=dict(quick=400, thorough=2400), shrinktime="90s"),
+        dict(name="digest", pkg="c01", run="TestDigestCollisions", timeout=600),
     ],
 )
 
